@@ -177,7 +177,8 @@ Proof.
   assert (E : (match c_now c with Some now => expire_winners c (m_version m) now (rs_idx st1) st1 | None => Ok st1 end) <> Panic).
   { destruct (c_now c); [apply expire_winners_no_panic|discriminate]. }
   destruct (match c_now c with Some now => _ | None => _ end) as [st2| |]; try discriminate; [|congruence].
-  destruct (if c_ro c then _ else retire_extents _ _ _) as [[img2 p2] ok].
+  cbn iota beta.
+  destruct (if c_ro c then _ else retire_two _ _ _ _) as [[img2 p2] ok].
   destruct (negb ok); [discriminate|].
   destruct (rs_last_end st2 <? N.of_nat (length img1)); [|discriminate].
   destruct (fs_release st2 _ _) eqn:R; try discriminate.
@@ -267,7 +268,8 @@ Proof.
   { destruct (c_now c); [apply expire_winners_late|fin]. }
   destruct (match c_now c with Some now => _ | None => _ end) as [st2| |];
     [|simpl; intros [= <-]; auto|simpl; discriminate].
-  destruct (if c_ro c then _ else retire_extents _ _ _) as [[img2 p2] ok].
+  cbn iota beta.
+  destruct (if c_ro c then _ else retire_two _ _ _ _) as [[img2 p2] ok].
   destruct (negb ok); [simpl; intros [= <-]; apply L; split; discriminate|].
   destruct (rs_last_end st2 <? _); [|simpl; discriminate].
   pose proof (fs_release_late st2 (rs_last_end st2) (N.of_nat (length img) - rs_last_end st2)) as RL.
